@@ -5,7 +5,7 @@ import impl
 
 PID = "C17"
 LEAN_MODULES = ["BtcHd.Props.C17"]
-LEAN_MODULES_THOROUGH = ['BtcHd.Props.TrPath', 'BtcHd.Props.TrWallet']
+LEAN_MODULES_THOROUGH = ['BtcHd.Props.TrPath', 'BtcHd.Props.TrWallet', 'BtcHd.Props.TrVersion']
 TRUSTED_BASE = common.CORE_TRUSTED
 ASSUMPTIONS = ["str.split / int() / str.isdigit / str.isascii of CPython as documented",
                "by-path lookups are compared through the derived node's fields (derivation itself is C01/C02)"]
